@@ -39,20 +39,33 @@ def main():
     meta = json.load(open(os.path.join(sd, "meta.json")))
     env = dict(os.environ, PYTHONPATH=wt, PYTHONHASHSEED="0")
     out = {}
-    # patch as produced now (authoritative), not as the agent saved it
+    # the worktree must hold exactly the agent's patch (git stash is shared between worktrees:
+    # never use it; foreign hunks are dropped by restoring from SEEDED/patch.diff)
     rc, diff = sh("git -C %s diff -- gfapy bin" % wt)
+    saved = open(os.path.join(sd, "patch.diff")).read()
+    if diff.strip() != saved.strip():
+        print("worktree differs from SEEDED/patch.diff: restoring from the saved patch")
+        sh("git -C %s checkout -- gfapy bin" % wt)
+        rc, o = sh("git -C %s apply SEEDED/patch.diff" % wt)
+        if rc != 0:
+            print("saved patch does not apply:", o)
+            return 2
+        rc, diff = sh("git -C %s diff -- gfapy bin" % wt)
     if not diff.strip():
         print("no change in worktree")
         return 2
+    tmp = os.path.join(wt, "SEEDED", ".current.diff")
+    with open(tmp, "w") as f:
+        f.write(diff)
     rc, t = sh("%s -m pytest -q -p no:cacheprovider tests 2>&1 | tail -3" % PY, cwd=wt, env=env)
     out["tests_with_change"] = t.strip().split("\n")[-1]
     rc1, d1 = sh("%s SEEDED/demo.py" % PY, cwd=wt, env=env)
     out["demo_with_change"] = {"rc": rc1, "tail": d1[-400:]}
-    sh("git -C %s stash push -- gfapy bin" % wt)
+    sh("git -C %s apply -R SEEDED/.current.diff" % wt)
     try:
         rc0, d0 = sh("%s SEEDED/demo.py" % PY, cwd=wt, env=env)
     finally:
-        rcp, po = sh("git -C %s stash pop" % wt)
+        rcp, po = sh("git -C %s apply SEEDED/.current.diff" % wt)
     out["demo_without_change"] = {"rc": rc0, "tail": d0[-300:]}
     ok = ("365 passed" in out["tests_with_change"]) and rc1 != 0 and rc0 == 0
     out["confirmed"] = ok
